@@ -13,6 +13,9 @@ pub const DEFAULT_PADDING_SCHEME: &str = r#"stop=8
 6=500-1000
 7=500-1000"#;
 
+/// Largest record payload size a scheme entry can ask for (what one frame can carry)
+const MAX_RECORD_PAYLOAD_SIZE: i64 = u16::MAX as i64;
+
 /// PaddingFactory generates padding sizes according to the scheme
 #[derive(Debug, Clone)]
 pub struct PaddingFactory {
@@ -111,6 +114,14 @@ impl PaddingFactory {
                 if min_val <= 0 || max_val <= 0 {
                     continue;
                 }
+
+                // A record size is realised by frames whose length field is 16 bits wide:
+                // larger values cannot be honoured, so cap them instead of letting them
+                // wrap (`as i32`, `as u16`) into negative or truncated sizes downstream.
+                let (min_val, max_val) = (
+                    min_val.min(MAX_RECORD_PAYLOAD_SIZE),
+                    max_val.min(MAX_RECORD_PAYLOAD_SIZE),
+                );
 
                 let (min_val, max_val) = (min_val.min(max_val), min_val.max(max_val));
 
